@@ -23,7 +23,20 @@ ATTRS = {
 }
 KT_LABEL = {'rsa2048': 'rsa2048', 'rsa4096': 'rsa4096', 'ecdsa_p256': 'ecdsa-p256', 'ecdsa_p384': 'ecdsa-p384', 'ecdsa_p521': 'ecdsa-p521',
             'ed25519': 'ed25519', 'ed448': 'ed448'}
-IPV6_FORMS = ['2001:db8::%x', '2001:0db8:0000:0000:0000:0000:0000:%04x', '2001:DB8::%X', '2001:db8:0:0:0:0:0:%x', 'fd00::1:%x', '::%x:1',
+def rust_ip_text(v):
+    """Canonical text of an address as Rust's std (and RFC 5952) prints it: IPv4-mapped addresses keep the dotted quad."""
+    a = ipaddress.ip_address(v)
+    if a.version == 6 and a.ipv4_mapped is not None:
+        return '::ffff:' + str(a.ipv4_mapped)
+    return str(a)
+
+
+def ip_key(v):
+    a = ipaddress.ip_address(v)
+    return (a.version, a.packed.hex())
+
+
+IPV6_FORMS = ['::ffff:192.0.2.%d', '::FFFF:c000:2%02x', '2001:db8::%x', '2001:0db8:0000:0000:0000:0000:0000:%04x', '2001:DB8::%X', '2001:db8:0:0:0:0:0:%x', 'fd00::1:%x', '::%x:1',
               '2001:db8:85a3::8a2e:370:%x']
 
 
@@ -50,11 +63,12 @@ def gen_cert(r, idx, rich):
         if k < 0.2:
             v = '%d.%d.%d.%d' % (r.choice([192, 198, 203, 10]), r.randint(0, 255), r.randint(0, 255), r.randint(1, 254))
             ent = {'ip': v, 'challenge': r.choice(['http-01', 'tls-alpn-01'])}
-            norm = ('ip', str(ipaddress.ip_address(v)))
+            norm = ('ip', rust_ip_text(v))
         elif k < 0.35:
-            v = r.choice(IPV6_FORMS) % r.randint(1, 0xffff)
+            f = r.choice(IPV6_FORMS)
+            v = f % (r.randint(1, 250) if 'ffff' in f.lower() else r.randint(1, 0xffff))
             ent = {'ip': v, 'challenge': r.choice(['http-01', 'tls-alpn-01'])}
-            norm = ('ip', str(ipaddress.ip_address(v)))
+            norm = ('ip', rust_ip_text(v))
         else:
             v = T.gen_domain(r, r.choice(['ascii', 'mixed', 'idn', 'combo', 'alabel', 'combo']))
             v = 'c%d-' % idx + v if r.random() < 0.5 else v + '.c%d.example' % idx
@@ -91,6 +105,9 @@ def gen_cert(r, idx, rich):
 def run_case(case):
     certs = case['certs']
     plan = {'default': {'lifetimes_s': [100, LONG], 'chain_lens': [2]}}
+    if case.get('forget'):
+        # the CA forgets the account when the first renewal asks for its order: re-registration, then the order again
+        plan['faults'] = [{'kind': 'newOrder', 'attempt_from': 4, 'action': 'forget_account', 'max_fires': 1, 'id': 'forget'}]
     pre_spki = {}
 
     def cfg(d, ca):
@@ -129,6 +146,12 @@ def run_case(case):
     try:
         if run.rc is not None:
             res['infra'] = 'daemon ended (rc=%s): %s' % (run.rc, run.stderr[-300:])
+        known_keys = {','.join(sorted('%s:%s' % x for x in c['norm'])) for c in certs}
+        for r_ in run.ca_log:
+            if r_.get('kind') == 'newOrder' and r_.get('cert') not in known_keys:
+                res['problems'].append(('order-identifiers', 'a newOrder request lists %s, which is the identifier set of no configured certificate (request #%s, transmission %s of attempt %s)' % (
+                    (r_.get('extra') or {}).get('identifiers', r_.get('payload')), r_.get('seq'), r_.get('tx'), r_.get('attempt'))))
+                break
         for c in certs:
             want_ids = sorted(c['norm'])
             want_key = ','.join(sorted('%s:%s' % x for x in c['norm']))
@@ -153,12 +176,14 @@ def run_case(case):
                 res['problems'].append(('order-identifiers', '%s: no newOrder lists exactly the configured identifiers %s (closest order: %s)' % (tag, want_ids, cand or got)))
                 continue
             for o in orders:
-                got = sorted(tuple(x) for x in (o.get('extra') or {}).get('identifiers', []))
+                try:
+                    got = sorted((x.get('type'), x.get('value')) for x in json.loads(o.get('payload') or '{}').get('identifiers', []))
+                except (ValueError, AttributeError):
+                    got = []
                 if got != [tuple(x) for x in want_ids]:
                     res['problems'].append(('order-identifiers', '%s: newOrder identifiers %s, expected %s' % (tag, got, want_ids)))
             fins = [r for r in run.ca_log if r.get('kind') == 'finalize' and r.get('cert') == want_key and (r.get('extra') or {}).get('csr')]
             pos = [p for p in run.postops(c['name']) if p['kv'].get('is_success') == 'true']
-            spkis = []
             for f in fins:
                 csr = f['extra']['csr']
                 res['csrs'] += 1
@@ -167,7 +192,7 @@ def run_case(case):
                     continue
                 if not csr.get('sig_ok'):
                     res['problems'].append(('csr-signature', '%s: CSR self-signature does not verify' % tag))
-                if sorted(csr['san_dns']) != want_dns or sorted(csr['san_ip']) != want_ip or csr['san_other'] or csr['san_ext_count'] != 1:
+                if sorted(csr['san_dns']) != want_dns or sorted(ip_key(x) for x in csr['san_ip']) != sorted(ip_key(x) for x in want_ip) or csr['san_other'] or csr['san_ext_count'] != 1:
                     res['problems'].append(('csr-san', '%s: CSR subjectAltName dns=%s ip=%s other=%s, expected dns=%s ip=%s' % (
                         tag, sorted(csr['san_dns']), sorted(csr['san_ip']), csr['san_other'], want_dns, want_ip)))
                 got_subj = sorted((s[2], s[1]) for s in csr['subject'])
@@ -179,14 +204,17 @@ def run_case(case):
                     res['problems'].append(('csr-digest', '%s: CSR signed with %s (%s), configured digest %s' % (tag, csr['sigalg'], csr['digest'], want_digest)))
                 if csr['key_type'] != KT_LABEL[c['key_type']]:
                     res['problems'].append(('csr-key-type', '%s: CSR key is %s' % (tag, csr['key_type'])))
-                spkis.append(csr['spki_sha256'])
-            # key beside the certificate after each success = key of the CSR of that attempt
+            # key beside the certificate after each success = key of the CSR of that attempt (the last accepted finalize before the report)
             succ_fins = [f for f in fins if f.get('status') == 200]
+            spkis = []
             for k, p in enumerate(pos):
-                if k >= len(succ_fins):
-                    break
+                mine = [f for f in succ_fins if f['t_recv'] < p['t_start']]
+                if not mine:
+                    continue
+                f = mine[-1]
+                spkis.append(f['extra']['csr'].get('spki_sha256'))
                 ki = p.get('key_info') or {}
-                if ki.get('spki_sha256') != succ_fins[k]['extra']['csr'].get('spki_sha256'):
+                if ki.get('spki_sha256') != f['extra']['csr'].get('spki_sha256'):
                     res['problems'].append(('csr-key-vs-file', '%s: issuance %d: the private-key file (%s) is not the key of the CSR' % (tag, k, ki.get('key_type') or ki.get('err'))))
                 else:
                     res['keys_matched'] += 1
@@ -226,7 +254,7 @@ def gen(tier, r):
             c['key_type'] = kt
             certs.append(c)
             idx += 1
-        cases.append({'i': i, 'certs': certs})
+        cases.append({'i': i, 'certs': certs, 'forget': i % 3 == 1})
     return cases
 
 
